@@ -176,25 +176,25 @@ where
                 match same {
                     None => rec.class("outcome:accepted_equal"),
                     Some(diff) => {
-                        // a context that differs ONLY in the partition options (number of partitions / hash rate)
-                        // while the rows hash exactly as before is one recorded finding, whatever operator produced it
+                        // a context that differs ONLY in option fields that are not part of the public-coin seed
+                        // (partition options, batching methods) is one recorded finding, whatever operator produced it
                         let only_partitions = diff == "[\"context\"]" && {
                             let (a, b) = (proof.options(), decoded.options());
-                            a.partition_options() != b.partition_options()
+                            (a.partition_options() != b.partition_options()
+                                || a.constraint_batching_method() != b.constraint_batching_method()
+                                || a.deep_poly_batching_method() != b.deep_poly_batching_method())
                                 && a.num_queries() == b.num_queries()
                                 && a.blowup_factor() == b.blowup_factor()
                                 && a.grinding_factor() == b.grinding_factor()
                                 && a.field_extension() == b.field_extension()
                                 && a.to_fri_options().folding_factor() == b.to_fri_options().folding_factor()
                                 && a.to_fri_options().remainder_max_degree() == b.to_fri_options().remainder_max_degree()
-                                && a.constraint_batching_method() == b.constraint_batching_method()
-                                && a.deep_poly_batching_method() == b.deep_poly_batching_method()
                                 && proof.trace_info() == decoded.trace_info()
                                 && proof.context.num_constraints() == decoded.context.num_constraints()
                                 && proof.context.field_modulus_bytes() == decoded.context.field_modulus_bytes()
                         };
                         let key = if only_partitions {
-                            "tampered-proof-accepted:partition-options-not-bound".to_string()
+                            "tampered-proof-accepted:option-fields-not-bound-by-seed".to_string()
                         } else {
                             format!("tampered-proof-accepted:{op}:{}", diff.chars().filter(|c| c.is_alphanumeric() || *c == '_' || *c == ',').take(60).collect::<String>())
                         };
